@@ -145,17 +145,30 @@ Definition canonical_uuid (s : list N) : bool :=
   Nat.eqb (length s) 36 &&
   forallb (fun i => if existsb (Nat.eqb i) [8; 13; 18; 23]%nat then nth i s 0 =? 45 else is_hex_any (nth i s 0)) (seq 0 36).
 
-(* ---- Buffer := BufferOp PkgLength BufferSize ByteList *)
-Definition buffer_decode (l : list N) : option (N * list N * list N) :=   (* declared size, payload, rest *)
+(* split off exactly the bytes covered by a PkgLength that starts at the head of [l]:
+   returns (object body after the PkgLength bytes, rest after the object) *)
+Definition take_pkg (l : list N) : option (list N * list N) :=
   match l with
-  | 0x11 :: ((b0 :: _) as r) =>
-      match pkg_decode r with
+  | [] => None
+  | b0 :: _ =>
+      match pkg_decode l with
       | Some (plen, r1) =>
           let pl_bytes := S (N.to_nat (b0 / 64)) in
           let body_len := (N.to_nat plen - pl_bytes)%nat in
-          if Nat.ltb (N.to_nat plen) pl_bytes || Nat.ltb (length r1) body_len then None else
-          match int_decode (firstn body_len r1) with
-          | Some (size, payload) => Some (size, payload, skipn body_len r1)
+          if Nat.ltb (N.to_nat plen) pl_bytes || Nat.ltb (length r1) body_len then None
+          else Some (firstn body_len r1, skipn body_len r1)
+      | None => None
+      end
+  end.
+
+(* ---- Buffer := BufferOp PkgLength BufferSize ByteList *)
+Definition buffer_decode (l : list N) : option (N * list N * list N) :=   (* declared size, payload, rest *)
+  match l with
+  | 0x11 :: r =>
+      match take_pkg r with
+      | Some (body, rest) =>
+          match int_decode body with
+          | Some (size, payload) => Some (size, payload, rest)
           | None => None
           end
       | None => None
